@@ -1,5 +1,6 @@
-(* What the model's deserialiser accepts is well typed and finite (no hypothesis on the environment), hence -- with
-   the round-trip theorem -- re-serialising and re-reading ANY accepted document with distinct keys is stable. *)
+(* What the model's deserialiser accepts is well typed and finite (no hypothesis on the environment or on the
+   document: duplicate keys are an error for struct fields and last-wins for maps, as in serde), hence -- with the
+   round-trip theorem -- re-serialising and re-reading ANY accepted document is stable. *)
 From Coq Require Import List NArith ZArith Bool Lia.
 From PV Require Import Lib.ListX Model.Json Model.Serde Model.SerdeDoc Proofs.SerdeCodecProofs Proofs.SerdeProofs.
 Import ListNotations.
@@ -12,16 +13,37 @@ Proof.
   cbn [jnodup]. f_equal. induction l as [|[k x] l IH]; [reflexivity|]. cbn [forallb snd]. rewrite <- IH. reflexivity.
 Qed.
 
-Definition jn (j : json) : Prop := jnodup j = true.
-
-Lemma jn_arr l : jn (JArr l) -> Forall jn l.
-Proof. unfold jn. rewrite jnodup_arr_eq, forallb_forall. intro H. apply Forall_forall. exact H. Qed.
-
-Lemma jn_obj l : jn (JObj l) -> NoDup (keys l) /\ Forall (fun kv => jn (snd kv)) l.
+Lemma insert_kv_keys_in {A} k (v : A) l x : In x (keys (insert_kv k v l)) -> x = k \/ In x (keys l).
 Proof.
-  unfold jn. rewrite jnodup_obj_eq. intro H. apply andb_true_iff in H as [H1 H2]. split.
-  - apply nodupb_spec. exact H1.
-  - rewrite forallb_forall in H2. apply Forall_forall. exact H2.
+  induction l as [|[k' v'] l IH]; cbn [insert_kv keys map fst In]; intro H.
+  - destruct H as [<-|[]]. left. reflexivity.
+  - destruct (leqb k k') eqn:Ek; cbn [map fst In] in H.
+    + apply leqb_spec in Ek. subst. destruct H as [<-|H]; [left; reflexivity | right; right; exact H].
+    + destruct H as [<-|H]; [right; left; reflexivity|]. destruct (IH H) as [->|Hi]; [left; reflexivity | right; right; exact Hi].
+Qed.
+
+Lemma insert_kv_nodup {A} k (v : A) l : NoDup (keys l) -> NoDup (keys (insert_kv k v l)).
+Proof.
+  induction l as [|[k' v'] l IH]; cbn [insert_kv keys map fst]; intro H.
+  - constructor; [intros [] | constructor].
+  - destruct (leqb k k') eqn:Ek; cbn [map fst].
+    + apply leqb_spec in Ek. subst. exact H.
+    + inversion H as [|? ? Hn Hd]; subst. constructor; [|apply IH; exact Hd].
+      intro Hi. apply insert_kv_keys_in in Hi as [->|Hi]; [rewrite leqb_refl in Ek; discriminate | contradiction].
+Qed.
+
+Lemma insert_kv_Forall {A} (Q : str * A -> Prop) k v l : Q (k, v) -> Forall Q l -> Forall Q (insert_kv k v l).
+Proof.
+  intros Hq. induction l as [|[k' v'] l IH]; cbn [insert_kv]; intro H; [constructor; [exact Hq | constructor]|].
+  inversion H; subst. destruct (leqb k k'); constructor; try assumption. apply IH. assumption.
+Qed.
+
+Lemma dedup_last_good {A} (Q : str * A -> Prop) : forall l acc, Forall Q l -> Forall Q acc -> NoDup (keys acc) ->
+  Forall Q (fold_left (fun a kv => insert_kv (fst kv) (snd kv) a) l acc)
+  /\ NoDup (keys (fold_left (fun a kv => insert_kv (fst kv) (snd kv) a) l acc)).
+Proof.
+  induction l as [|[k v] l IH]; intros acc Hl Ha Hn; cbn [fold_left fst snd]; [split; assumption|].
+  inversion Hl; subst. apply IH; [assumption | apply insert_kv_Forall; assumption | apply insert_kv_nodup; exact Hn].
 Qed.
 
 Lemma parse_dec_lt bd s v : parse_dec bd s = Some v -> (v < bd)%N.
@@ -93,7 +115,9 @@ Section DeWt.
       destruct ((lo <=? z)%Z && (z <=? hi)%Z) eqn:Eb; [|discriminate]. injection H as <-.
       apply andb_true_iff in Eb as [H1 H2]. apply Z.leb_le in H1. apply Z.leb_le in H2.
       split; [constructor; assumption | reflexivity].
-    - destruct n; try discriminate. injection H as <-. split; [constructor | reflexivity].
+    - destruct n.
+      + destruct (int_is_exact_float z); [|discriminate]. injection H as <-. split; [constructor | reflexivity].
+      + injection H as <-. split; [constructor | reflexivity].
     - injection H as <-. split; [constructor | reflexivity].
     - destruct s as [|c [|c2 s]]; try discriminate. injection H as <-. split; [constructor | reflexivity].
   Qed.
@@ -110,70 +134,60 @@ Section DeWt.
 
   Section Body.
     Variable rec : desc -> json -> option value.
-    Hypothesis Hrec : forall d j v, jn j -> rec d j = Some v -> good d v.
+    Hypothesis Hrec : forall d j v, rec d j = Some v -> good d v.
 
-    Lemma mapM_good d : forall l r, Forall jn l -> mapM (rec d) l = Some r ->
+    Lemma mapM_good d : forall l r, mapM (rec d) l = Some r ->
       Forall (wt d) r /\ forallb json_ok r = true.
     Proof.
-      induction l as [|x l IH]; intros r Hn H; cbn [mapM] in H.
+      induction l as [|x l IH]; intros r H; cbn [mapM] in H.
       - injection H as <-. split; [constructor | reflexivity].
-      - inversion Hn as [|? ? Hx Hl]; subst.
-        destruct (rec d x) as [y|] eqn:Ex; [|discriminate].
+      - destruct (rec d x) as [y|] eqn:Ex; [|discriminate].
         destruct (mapM (rec d) l) as [r'|] eqn:Er; [|discriminate].
-        injection H as <-. destruct (Hrec _ _ _ Hx Ex) as [Hw Hj]. destruct (IH r' Hl eq_refl) as [Hws Hjs].
+        injection H as <-. destruct (Hrec _ _ _ Ex) as [Hw Hj]. destruct (IH r' eq_refl) as [Hws Hjs].
         split; [constructor; assumption | cbn [forallb]; rewrite Hj, Hjs; reflexivity].
     Qed.
 
-    Lemma mapM_map_good d : forall kvs r, Forall (fun kv => jn (snd kv)) kvs ->
+    Lemma mapM_map_good d : forall kvs r,
       mapM (fun kv : str * json => option_map (pair (fst kv)) (rec d (snd kv))) kvs = Some r ->
-      keys r = keys kvs /\ Forall (fun kv => wt d (snd kv)) r /\ forallb (fun kv => json_ok (snd kv)) r = true.
+      Forall (fun kv => good d (snd kv)) r.
     Proof.
-      induction kvs as [|[k x] kvs IH]; intros r Hn H; cbn [mapM] in H.
-      - injection H as <-. repeat split; constructor.
-      - inversion Hn as [|? ? Hx Hl]; subst. cbn [fst snd] in *.
+      induction kvs as [|[k x] kvs IH]; intros r H; cbn [mapM] in H.
+      - injection H as <-. constructor.
+      - cbn [fst snd] in *.
         destruct (rec d x) as [y|] eqn:Ex; cbn [option_map] in H; [|discriminate].
         destruct (mapM _ kvs) as [r'|] eqn:Er; [|discriminate].
-        injection H as <-. destruct (Hrec _ _ _ Hx Ex) as [Hw Hj].
-        destruct (IH r' Hl eq_refl) as [Hk [Hws Hjs]].
-        repeat split.
-        + unfold keys in *. cbn [map fst]. rewrite Hk. reflexivity.
-        + constructor; assumption.
-        + cbn [forallb snd]. rewrite Hj, Hjs. reflexivity.
+        injection H as <-. constructor; [cbn [snd]; apply (Hrec _ _ _ Ex) | apply IH; reflexivity].
     Qed.
 
-    Lemma de_tuple_good : forall ds l r, Forall jn l -> de_tuple rec ds l = Some r ->
+    Lemma de_tuple_good : forall ds l r, de_tuple rec ds l = Some r ->
       Forall2 wt ds r /\ forallb json_ok r = true.
     Proof.
-      induction ds as [|d ds IH]; intros [|j l] r Hn H; cbn [de_tuple] in H; try discriminate.
+      induction ds as [|d ds IH]; intros [|j l] r H; cbn [de_tuple] in H; try discriminate.
       - injection H as <-. split; [constructor | reflexivity].
-      - inversion Hn as [|? ? Hx Hl]; subst.
-        destruct (rec d j) as [y|] eqn:Ex; [|discriminate].
+      - destruct (rec d j) as [y|] eqn:Ex; [|discriminate].
         destruct (de_tuple rec ds l) as [r'|] eqn:Er; [|discriminate].
-        injection H as <-. destruct (Hrec _ _ _ Hx Ex) as [Hw Hj]. destruct (IH l r' Hl Er) as [Hws Hjs].
+        injection H as <-. destruct (Hrec _ _ _ Ex) as [Hw Hj]. destruct (IH l r' Er) as [Hws Hjs].
         split; [constructor; assumption | cbn [forallb]; rewrite Hj, Hjs; reflexivity].
     Qed.
 
     Lemma de_payload_good sh j DF p :
-      jn j ->
-      (forall fs kvs l, jn (JObj kvs) -> DF fs kvs = Some l ->
+      (forall fs kvs l, DF fs kvs = Some l ->
          Forall2 (fun f v => wt (fdesc f) v) fs l /\ forallb json_ok l = true) ->
       de_payload rec sh j DF = Some p -> wtp sh p /\ forallb json_ok p = true.
     Proof.
-      intros Hn HDF H. destruct sh; cbn [de_payload wtp] in *.
+      intros HDF H. destruct sh; cbn [de_payload wtp] in *.
       - destruct j; try discriminate. injection H as <-. split; reflexivity.
       - destruct (rec d j) as [v|] eqn:Ex; [|discriminate]. injection H as <-.
-        destruct (Hrec _ _ _ Hn Ex) as [Hw Hj]. split; [exists v; split; [reflexivity | exact Hw]|].
+        destruct (Hrec _ _ _ Ex) as [Hw Hj]. split; [exists v; split; [reflexivity | exact Hw]|].
         cbn [forallb]. rewrite Hj. reflexivity.
-      - destruct j; try discriminate. apply (de_tuple_good ds l p (jn_arr _ Hn) H).
-      - destruct j; try discriminate. apply (HDF fs l p Hn H).
+      - destruct j; try discriminate. apply (de_tuple_good ds l p H).
+      - destruct j; try discriminate. apply (HDF fs l p H).
     Qed.
 
-    Lemma de_named_good f kvs v : jn (JObj kvs) -> de_named rec f kvs = Some v -> good (fdesc f) v.
+    Lemma de_named_good f kvs v : de_named rec f kvs = Some v -> good (fdesc f) v.
     Proof.
-      intros Hn. unfold de_named. destruct (assoc (fname f) kvs) as [j|] eqn:Ea.
-      - intro H. apply (Hrec _ j); [|exact H].
-        destruct (assoc_In _ _ _ Ea) as [k' Hin]. destruct (jn_obj _ Hn) as [_ Hall].
-        rewrite Forall_forall in Hall. apply (Hall (k', j) Hin).
+      unfold de_named. destruct (assoc (fname f) kvs) as [j|] eqn:Ea.
+      - intro H. apply (Hrec _ j). exact H.
       - destruct (fdefault f).
         + unfold default_of. intro H. apply good_of_unbox.
           destruct (unbox (fdesc f)); try discriminate; injection H as <-; split; try reflexivity; repeat constructor.
@@ -192,27 +206,25 @@ Section DeWt.
         + destruct (IH _ _ _ H) as [H1 H2]. split; [exact H1 | right; exact H2].
     Qed.
 
-    Lemma de_flat_good f own kvs v : jn (JObj kvs) -> de_flat E rec f own kvs = Some v -> good (fdesc f) v.
+    Lemma de_flat_good f own kvs v : de_flat E rec f own kvs = Some v -> good (fdesc f) v.
     Proof.
-      intros Hn. unfold de_flat. destruct (struct_def E (fdesc f)) as [[fs|vs|d']|] eqn:Es; try discriminate.
+      unfold de_flat. destruct (struct_def E (fdesc f)) as [[fs|vs|d']|] eqn:Es; try discriminate.
       destruct (find_variant vs own kvs) as [[[tag sh] j]|] eqn:Ef; [|discriminate].
       destruct (find_variant_spec _ _ _ _ _ _ Ef) as [Ha Hin].
       destruct (struct_def_ref _ _ Es) as [n [Hu Hl]].
-      assert (jn j) as Hj.
-      { destruct (jn_obj _ Hn) as [_ Hall]. rewrite Forall_forall in Hall. apply (Hall (tag, j) Hin). }
       intro H. apply good_of_unbox. rewrite Hu.
       assert (forall p, de_payload rec sh j (fun _ _ => None) = Some p -> good (DRef n) (VEnum tag p)) as Hp.
-      { intros p Hp. apply de_payload_good in Hp; [|exact Hj | intros; discriminate].
+      { intros p Hp. apply de_payload_good in Hp; [|intros; discriminate].
         destruct Hp as [Hw Hjs]. split; [eapply wt_enum_of_payload; eassumption | exact Hjs]. }
       destruct sh; try discriminate;
         (destruct (de_payload rec _ j _) as [p|] eqn:Ep; [|discriminate]; injection H as <-; apply Hp; reflexivity).
     Qed.
 
-    Lemma de_fields_own_good own kvs : jn (JObj kvs) -> forall fs l,
+    Lemma de_fields_own_good own kvs : forall fs l,
       de_fields_own E rec own fs kvs = Some l ->
       Forall2 (fun f v => wt (fdesc f) v) fs l /\ forallb json_ok l = true.
     Proof.
-      intros Hn. induction fs as [|f fs IH]; intros l H; cbn [de_fields_own] in H.
+      induction fs as [|f fs IH]; intros l H; cbn [de_fields_own] in H.
       - injection H as <-. split; [constructor | reflexivity].
       - destruct (if fflatten f then de_flat E rec f own kvs else de_named rec f kvs) as [v|] eqn:Ev; [|discriminate].
         destruct (de_fields_own E rec own fs kvs) as [r|] eqn:Er; [|discriminate].
@@ -222,16 +234,18 @@ Section DeWt.
         split; [constructor; assumption | cbn [forallb]; rewrite Hj, Hjs; reflexivity].
     Qed.
 
-    Lemma de_fields_good fs kvs l : jn (JObj kvs) -> de_fields E rec fs kvs = Some l ->
+    Lemma de_fields_good fs kvs l : de_fields E rec fs kvs = Some l ->
       Forall2 (fun f v => wt (fdesc f) v) fs l /\ forallb json_ok l = true.
-    Proof. intros Hn H. unfold de_fields in H. eapply de_fields_own_good; eassumption. Qed.
-
-    Lemma de_def_good n df j v : lookup E n = Some df -> jn j -> de_def E rec df j = Some v -> good (DRef n) v.
     Proof.
-      intros Hl Hn H. destruct df as [fs|vs|d']; cbn [de_def] in H; [| |discriminate].
+      intros H. unfold de_fields in H. destruct (nodupb _); [|discriminate]. eapply de_fields_own_good; eassumption.
+    Qed.
+
+    Lemma de_def_good n df j v : lookup E n = Some df -> de_def E rec df j = Some v -> good (DRef n) v.
+    Proof.
+      intros Hl H. destruct df as [fs|vs|d']; cbn [de_def] in H; [| |discriminate].
       - destruct j; try discriminate.
         destruct (de_fields E rec fs l) as [r|] eqn:Er; cbn [option_map] in H; [|discriminate].
-        injection H as <-. destruct (de_fields_good _ _ _ Hn Er) as [Hw Hj].
+        injection H as <-. destruct (de_fields_good _ _ _ Er) as [Hw Hj].
         split; [eapply wt_struct; eassumption | exact Hj].
       - destruct j; try discriminate.
         + destruct (assoc s vs) as [[| | |]|] eqn:Ea; try discriminate. injection H as <-.
@@ -240,37 +254,37 @@ Section DeWt.
           destruct (assoc tag vs) as [sh|] eqn:Ea; [|discriminate].
           destruct (de_payload rec sh x (de_fields E rec)) as [p|] eqn:Ep; cbn [option_map] in H; [|discriminate].
           injection H as <-.
-          assert (jn x) as Hx.
-          { destruct (jn_obj _ Hn) as [_ Hall]. inversion Hall; subst. assumption. }
-          apply de_payload_good in Ep; [|exact Hx | intros fs kvs r Hk Hd; eapply de_fields_good; eassumption].
+          apply de_payload_good in Ep; [|intros fs kvs r Hd; eapply de_fields_good; eassumption].
           destruct Ep as [Hw Hj]. split; [eapply wt_enum_of_payload; eassumption | exact Hj].
     Qed.
 
-    Lemma de_body_good : forall d j v, jn j -> de_body E rec d j = Some v -> good d v.
+    Lemma de_body_good : forall d j v, de_body E rec d j = Some v -> good d v.
     Proof.
-      induction d; intros j v Hn H; cbn [de_body] in H;
+      induction d; intros j v H; cbn [de_body] in H;
         try (apply de_prim_good in H; exact H).
       - (* DOption *)
         destruct j;
           try (injection H as <-; split; [constructor | reflexivity]);
           (destruct (de_body E rec d _) as [w|] eqn:Eb; cbn [option_map] in H; [|discriminate];
-           injection H as <-; destruct (IHd _ _ Hn Eb) as [Hw Hj]; split; [constructor; exact Hw | exact Hj]).
+           injection H as <-; destruct (IHd _ _ Eb) as [Hw Hj]; split; [constructor; exact Hw | exact Hj]).
       - (* DVec *)
         destruct j; try discriminate.
         destruct (mapM (rec d) l) as [r|] eqn:Er; cbn [option_map] in H; [|discriminate]. injection H as <-.
-        destruct (mapM_good d l r (jn_arr _ Hn) Er) as [Hw Hj]. split; [constructor; exact Hw | exact Hj].
+        destruct (mapM_good d l r Er) as [Hw Hj]. split; [constructor; exact Hw | exact Hj].
       - (* DMap *)
         destruct j; try discriminate.
         destruct (mapM _ l) as [r|] eqn:Er; cbn [option_map] in H; [|discriminate]. injection H as <-.
-        destruct (jn_obj _ Hn) as [Hnd Hall].
-        destruct (mapM_map_good d l r Hall Er) as [Hk [Hw Hj]].
-        split; [constructor; [rewrite Hk; exact Hnd | exact Hw] | exact Hj].
+        pose proof (mapM_map_good d l r Er) as Hg.
+        destruct (dedup_last_good (fun kv => good d (snd kv)) r [] Hg (Forall_nil _) (NoDup_nil _)) as [Hq Hn].
+        fold (dedup_last r) in Hq, Hn. rewrite Forall_forall in Hq. split.
+        + constructor; [exact Hn | apply Forall_forall; intros kv Hkv; apply (Hq kv Hkv)].
+        + cbn [json_ok]. apply forallb_forall. intros kv Hkv. apply (Hq kv Hkv).
       - (* DBox *)
-        destruct (IHd _ _ Hn H) as [Hw Hj]. split; [constructor; exact Hw | exact Hj].
+        destruct (IHd _ _ H) as [Hw Hj]. split; [constructor; exact Hw | exact Hj].
       - (* DTuple *)
         destruct j; try discriminate.
         destruct (de_tuple rec ds l) as [r|] eqn:Er; cbn [option_map] in H; [|discriminate]. injection H as <-.
-        destruct (de_tuple_good ds l r (jn_arr _ Hn) Er) as [Hw Hj]. split; [constructor; exact Hw | exact Hj].
+        destruct (de_tuple_good ds l r Er) as [Hw Hj]. split; [constructor; exact Hw | exact Hj].
       - (* DRef *)
         destruct (lookup E name) as [df|] eqn:El; [|discriminate].
         destruct df as [fs|vs|d'].
@@ -284,20 +298,20 @@ Section DeWt.
     Qed.
   End Body.
 
-  Lemma de_fuel_good : forall f d j v, jn j -> de_fuel E f d j = Some v -> good d v.
+  Lemma de_fuel_good : forall f d j v, de_fuel E f d j = Some v -> good d v.
   Proof.
-    induction f as [|f IH]; intros d j v Hn H; [discriminate|].
-    cbn [de_fuel] in H. eapply de_body_good; [exact IH | exact Hn | exact H].
+    induction f as [|f IH]; intros d j v H; [discriminate|].
+    cbn [de_fuel] in H. eapply de_body_good; [exact IH | exact H].
   Qed.
 
   (* whatever the deserialiser accepts is a well-typed value without non-finite floats *)
-  Theorem de_wt d j v : jnodup j = true -> de E d j = Some v -> wt d v /\ json_ok v = true.
-  Proof. intros Hn H. exact (de_fuel_good _ d j v Hn H). Qed.
+  Theorem de_wt d j v : de E d j = Some v -> wt d v /\ json_ok v = true.
+  Proof. intros H. exact (de_fuel_good _ d j v H). Qed.
 
   (* ... so a second trip through JSON changes nothing: for ANY accepted document, not only for prqlc's own *)
   Theorem reserialise_stable d j v :
-    schema_ok E = true -> desc_ok E d = true -> jnodup j = true -> de E d j = Some v -> de E d (ser E d v) = Some v.
+    schema_ok E = true -> desc_ok E d = true -> de E d j = Some v -> de E d (ser E d v) = Some v.
   Proof.
-    intros Hs Hd Hn H. destruct (de_wt d j v Hn H) as [Hw Hj]. apply serde_roundtrip; assumption.
+    intros Hs Hd H. destruct (de_wt d j v H) as [Hw Hj]. apply serde_roundtrip; assumption.
   Qed.
 End DeWt.
